@@ -7,12 +7,12 @@ import (
 	"errors"
 	"fmt"
 	"io"
-	"math"
 	"net"
 	"sync"
 	"time"
 
 	"github.com/pion/transport/v3"
+	"github.com/pion/transport/v3/deadline"
 )
 
 const (
@@ -38,13 +38,14 @@ type connObserver interface {
 // UDPConn is the implementation of the Conn and PacketConn interfaces for UDP network connections.
 // compatible with net.PacketConn and net.Conn.
 type UDPConn struct {
-	locAddr   *net.UDPAddr // read-only
-	remAddr   *net.UDPAddr // read-only
-	obs       connObserver // read-only
-	readCh    chan Chunk   // thread-safe
-	closed    bool         // requires mutex
-	mu        sync.Mutex   // to mutex closed flag
-	readTimer *time.Timer  // thread-safe
+	locAddr *net.UDPAddr // read-only
+	remAddr *net.UDPAddr // read-only
+	obs     connObserver // read-only
+	readCh  chan Chunk   // thread-safe
+	closed  bool         // requires mutex
+	mu      sync.Mutex   // to mutex closed flag
+
+	readDeadline *deadline.Deadline // thread-safe
 }
 
 var _ transport.UDPConn = &UDPConn{}
@@ -55,11 +56,11 @@ func newUDPConn(locAddr, remAddr *net.UDPAddr, obs connObserver) (*UDPConn, erro
 	}
 
 	return &UDPConn{
-		locAddr:   locAddr,
-		remAddr:   remAddr,
-		obs:       obs,
-		readCh:    make(chan Chunk, maxReadQueueSize),
-		readTimer: time.NewTimer(time.Duration(math.MaxInt64)),
+		locAddr:      locAddr,
+		remAddr:      remAddr,
+		obs:          obs,
+		readCh:       make(chan Chunk, maxReadQueueSize),
+		readDeadline: deadline.New(),
 	}, nil
 }
 
@@ -113,14 +114,7 @@ func (c *UDPConn) SetDeadline(t time.Time) error {
 // and any currently-blocked ReadFrom call.
 // A zero value for t means ReadFrom will not time out.
 func (c *UDPConn) SetReadDeadline(t time.Time) error {
-	var d time.Duration
-	var noDeadline time.Time
-	if t == noDeadline {
-		d = time.Duration(math.MaxInt64)
-	} else {
-		d = time.Until(t)
-	}
-	c.readTimer.Reset(d)
+	c.readDeadline.Set(t)
 
 	return nil
 }
@@ -155,6 +149,13 @@ func (c *UDPConn) Read(b []byte) (int, error) {
 // an Error with Timeout() == true after a fixed time limit;
 // see SetDeadline and SetReadDeadline.
 func (c *UDPConn) ReadFrom(p []byte) (n int, addr net.Addr, err error) {
+	// Fail immediately if the deadline has already passed.
+	select {
+	case <-c.readDeadline.Done():
+		return 0, nil, c.readTimeoutError()
+	default:
+	}
+
 loop:
 	for {
 		select {
@@ -177,13 +178,8 @@ loop:
 
 			return n, addr, err
 
-		case <-c.readTimer.C:
-			return 0, nil, &net.OpError{
-				Op:   "read",
-				Net:  c.locAddr.Network(),
-				Addr: c.locAddr,
-				Err:  newTimeoutError("i/o timeout"),
-			}
+		case <-c.readDeadline.Done():
+			return 0, nil, c.readTimeoutError()
 		}
 	}
 
@@ -192,6 +188,15 @@ loop:
 		Net:  c.locAddr.Network(),
 		Addr: c.locAddr,
 		Err:  errUseClosedNetworkConn,
+	}
+}
+
+func (c *UDPConn) readTimeoutError() error {
+	return &net.OpError{
+		Op:   "read",
+		Net:  c.locAddr.Network(),
+		Addr: c.locAddr,
+		Err:  newTimeoutError("i/o timeout"),
 	}
 }
 
